@@ -76,6 +76,9 @@ class ContinuousDiscretizer(BaseDiscretizer):
         if self.verbose:  # verbose if requested
             print(f" - [ContinuousDiscretizer] Fit {str(self.quantitative_features)}")
 
+        # checking for previous fit, for X's type and columns and for y (X is only read)
+        self._prepare_data(X, y)
+
         # storing ordering
         all_orders = []
 
